@@ -23,7 +23,8 @@ def scenarios(tier):
             ("FWRETRACT",), ("RAW", "G1 F600"),
             ("EV", "PRINT_CANCELLED"), ("EV", "PRINT_DONE"), ("NEWPRINT",),
             ("API", "add", "b", "cIn", False), ("API", "upd", "r", "rBig", False),
-            ("SET", "clearRegionsAfterPrintFinishes", True), ("SET", "clearRegionsAfterPrintFinishes", False)]
+            ("SET", "clearRegionsAfterPrintFinishes", True), ("SET", "clearRegionsAfterPrintFinishes", False),
+            ("SETEXT", (("M204", "merge"),)), ("SETEXT", (("G4", "exclude"), ("M117", "last"), ("M204", "merge")))]
     cfg = dict(prop="C10", monitors=(), regions=["R"], emax=1, key_depth=False, maxregions=2,
                probe_depth=2 if q else 3, exit="M400\n", enter="M300 S1\n")
     return [Scenario("c10-restart", World, cfg, menu, max_depth=5 if q else 7, max_states=40000 if q else 1500000)]
